@@ -863,3 +863,163 @@ func g8EveryRecordedCallRegistered(r *Repo, rep *Report) {
 		rep.fail(Finding{Rule: "G8", Key: "G8|calls-recorded|floor", Kind: "undecided", Where: []string{r.pos(fi.Decl.Pos())}, Msg: "no loop over the finder's recorded calls found in newFileInfos (confirmed by hand)"})
 	}
 }
+
+// loopBodyMustPass: on every path from the entry of the loop's body to its exit (falling off the end, continue, break) a block
+// satisfying pred is passed. Returns (found loop body, ok).
+func loopBodyMustPass(g *Graph, loop ast.Stmt, body *ast.BlockStmt, pred func(*cfg.Block) bool) (bool, bool) {
+	var entry *cfg.Block
+	inBody := map[*cfg.Block]bool{}
+	for _, b := range g.Blocks {
+		for _, nd := range b.Nodes {
+			if nd.Pos() >= body.Pos() && nd.End() <= body.End() {
+				inBody[b] = true
+			}
+		}
+		if (b.Kind == cfg.KindRangeBody || b.Kind == cfg.KindForBody) && b.Stmt == loop {
+			entry = b
+			inBody[b] = true
+		}
+	}
+	if entry == nil {
+		return false, false
+	}
+	seen := map[*cfg.Block]bool{}
+	escaped := false
+	var walk func(b *cfg.Block)
+	walk = func(b *cfg.Block) {
+		if seen[b] || escaped {
+			return
+		}
+		seen[b] = true
+		if pred(b) {
+			return
+		}
+		for _, s := range b.Succs {
+			if !inBody[s] {
+				escaped = true
+				return
+			}
+			walk(s)
+		}
+	}
+	walk(entry)
+	return true, !escaped
+}
+
+// g27ProgressMeasure — the reload loop of generatePackage goes on while the list of calls that cannot be typed yet changes from
+// one pass to the next. The list must hold one entry for every such call: if entries are dropped (de-duplicated by their text,
+// filtered), a pass in which one of two textually identical calls became typeable looks like a pass without progress and the
+// run ends with "cannot generate" although another pass would have generated everything. In the loop over the package's
+// undefined calls every iteration stores an entry (indexed store or append) on every path.
+func g27ProgressMeasure(r *Repo, rep *Report) {
+	fi := r.lookup("derive.(*program).generatePackage")
+	if fi == nil {
+		rep.fail(Finding{Rule: "G27", Key: "G27|progress|missing", Kind: "undecided", Msg: "(*program).generatePackage not found"})
+		return
+	}
+	info := fi.Pkg.TypesInfo
+	g := newGraph(fi.Decl.Body, func(*ast.CallExpr) bool { return true })
+	loops := 0
+	ast.Inspect(fi.Decl.Body, func(n ast.Node) bool {
+		rs, ok := n.(*ast.RangeStmt)
+		if !ok {
+			return true
+		}
+		sel, ok := ast.Unparen(rs.X).(*ast.SelectorExpr)
+		if !ok || sel.Sel.Name != "undefined" {
+			return true
+		}
+		loops++
+		stores := func(b *cfg.Block) bool {
+			return blockHas(b, func(k ast.Node) bool {
+				as, ok := k.(*ast.AssignStmt)
+				if !ok || len(as.Lhs) != 1 || len(as.Rhs) != 1 {
+					return false
+				}
+				if ix, ok := as.Lhs[0].(*ast.IndexExpr); ok {
+					if t := info.TypeOf(ix.X); t != nil && t.String() == "[]string" {
+						return true
+					}
+				}
+				if c, ok := as.Rhs[0].(*ast.CallExpr); ok && exprStr(c.Fun) == "append" {
+					if t := info.TypeOf(as.Lhs[0]); t != nil && t.String() == "[]string" {
+						return true
+					}
+				}
+				return false
+			})
+		}
+		found, ok2 := loopBodyMustPass(g, rs, rs.Body, stores)
+		switch {
+		case !found:
+			rep.fail(Finding{Rule: "G27", Key: "G27|progress|shape", Kind: "undecided", Where: []string{r.pos(rs.Pos())}, Msg: "the loop over the undefined calls has no body block in the control-flow graph"})
+		case !ok2:
+			rep.fail(Finding{Rule: "G27", Key: "G27|progress|entries-dropped", Where: []string{r.pos(rs.Pos())},
+				Msg: "generatePackage can skip an undefined call when it builds the list whose change from pass to pass decides whether another pass is made: with two calls of the same text of which one becomes typeable, the list does not change, the loop gives up and goderive ends with `cannot generate` for a package that one more pass would have completed"})
+		default:
+			rep.pass("G27")
+			rep.sample(map[string]string{"rule": "G27 one progress entry per undefined call", "loop": r.pos(rs.Pos())})
+		}
+		return true
+	})
+	rep.analysed("undefined_call_loops", loops)
+	if loops == 0 {
+		rep.fail(Finding{Rule: "G27", Key: "G27|progress|floor", Kind: "undecided", Where: []string{r.pos(fi.Decl.Pos())}, Msg: "no loop over the package's undefined calls found in generatePackage"})
+	}
+}
+
+// g8PluginOrderFixed — dispatch is "first plugin whose prefix matches" over a slice that NewPlugins sorted longest prefix first.
+// That slice is shared by the plugins value, every program and every pkg: nothing but sortPlugins may reorder it or store into it
+// (sort.*, slices.Sort*, an indexed store or a swap on a []Plugin), or a later dispatch walks the plugins in another order and a
+// call with the longer prefix is handed to the plugin with the shorter one.
+func g8PluginOrderFixed(r *Repo, rep *Report) {
+	n := 0
+	for _, b := range r.bodies() {
+		if b.Pkg.Name != "derive" && b.Pkg.Name != "main" {
+			continue
+		}
+		if b.Name == "derive.sortPlugins" || strings.HasPrefix(b.Name, "derive.sortPlugins$") {
+			continue
+		}
+		info := b.Pkg.TypesInfo
+		isPluginSlice := func(e ast.Expr) bool {
+			t := info.TypeOf(e)
+			if t == nil {
+				return false
+			}
+			sl, ok := t.Underlying().(*types.Slice)
+			if !ok {
+				return false
+			}
+			nt, ok := sl.Elem().(*types.Named)
+			return ok && nt.Obj().Name() == "Plugin" && nt.Obj().Pkg() != nil && strings.HasSuffix(nt.Obj().Pkg().Path(), "/derive")
+		}
+		inspectOwn(b.Block, func(m ast.Node) bool {
+			switch x := m.(type) {
+			case *ast.CallExpr:
+				fn, ok := callee(info, x).(*types.Func)
+				if !ok || fn.Pkg() == nil || len(x.Args) == 0 {
+					return true
+				}
+				if (fn.Pkg().Path() == "sort" || fn.Pkg().Path() == "slices") && isPluginSlice(x.Args[0]) {
+					n++
+					rep.fail(Finding{Rule: "G8", Key: "G8|plugin-order|" + b.Name + "|reordered", Where: []string{r.pos(x.Pos())},
+						Msg: b.Name + " reorders a []Plugin (" + exprStr(x.Fun) + "): the slice is the one NewPlugins sorted longest prefix first and that every dispatch walks, so after this call a name with the longer of two nested prefixes can be handed to the plugin with the shorter one"})
+				}
+			case *ast.AssignStmt:
+				for _, l := range x.Lhs {
+					if ix, ok := l.(*ast.IndexExpr); ok && isPluginSlice(ix.X) {
+						n++
+						rep.fail(Finding{Rule: "G8", Key: "G8|plugin-order|" + b.Name + "|store", Where: []string{r.pos(x.Pos())},
+							Msg: b.Name + " stores into a []Plugin: the order NewPlugins established (longest prefix first) is what dispatch relies on"})
+					}
+				}
+			}
+			return true
+		})
+	}
+	rep.analysed("plugin_slice_mutations", n)
+	if n == 0 {
+		rep.pass("G8")
+	}
+}
